@@ -460,10 +460,11 @@ func (t *Trie) updateRefCount(h util.Uint256, key []byte, index uint32) int32 {
 		data, err = getFromStore(key, t.mode, t.Store)
 		if err == nil {
 			cnt = int32(binary.LittleEndian.Uint32(data[len(data)-4:]))
+			data = bytes.Clone(data) // It's updated below and the store's buffer can belong to a lower layer.
 		}
 	}
 	if len(data) == 0 {
-		data = append(node.bytes, 1, 0, 0, 0, 0)
+		data = slices.Concat(node.bytes, []byte{1, 0, 0, 0, 0}) // node.bytes can be a part of the store's buffer.
 	}
 	cnt += node.refcount
 	switch {
